@@ -115,7 +115,10 @@ def seed_json():
             display({'text/html': "<table>\n<tr><td>1</td></tr>\n</table>\n", 'text/plain': "table 1"}),
             exec_result({'application/json': [1, 2, 3], 'text/plain': "[1, 2, 3]"}, ec=3, metadata={'needs_background': 'light'}),
         ], ec=3, id='j0'),
-        code_cell("scalar()\n", outputs=[display({'application/json': 1, 'text/plain': "1"})], ec=5, id='j2'),
+        code_cell("scalar()\n", outputs=[display({'application/json': 1, 'text/plain': "1"}),
+                                          # mime types as some exporters write them: valid keys, matched case-insensitively by readers
+                                          display({'text/HTML': "<b>bold</b>\n<i>slanted</i>\n", 'text/plain': "bold slanted"})], ec=5, id='j2'),
+        md_cell("![fig](attachment:fig.PNG)\n", attachments={'fig.PNG': {'image/PNG': PNG1}}, id='j3'),
         code_cell("plot()\n", outputs=[display({'image/png': PNG1, 'text/plain': "<Figure size 640x480 with 1 Axes>"}),
                                         display({})],                     # an empty mime bundle is valid
                   ec=4, id='j1', metadata={'scrolled': True, 'note': ''}),
@@ -484,6 +487,10 @@ def attachment_edits(att):
     a = cp(att); a[k] = {'image/png': PNG2}; out.append(('replace:2', a))
     a = cp(att); a[k] = {'image/png': PNG3}; out.append(('replace:3', a))
     a = cp(att); a['renamed.png'] = a.pop(k); out.append(('rename', a))
+    mk = sorted(att[k])[0]
+    if isinstance(att[k][mk], str):
+        # the payload changes under the mime key as it is stored (which need not be lower case)
+        a = cp(att); a[k] = dict(a[k]); a[k][mk] = PNG2 if att[k][mk] != PNG2 else PNG3; out.append(('payload:2', a))
     a = cp(att); a[k] = dict(a[k]); a[k]['text/plain'] = 'alt text'; out.append(('add-mime', a))
     if 'application/json' in att[k]:
         a = cp(att); a[k] = dict(a[k]); a[k]['application/json'] = 2 if att[k]['application/json'] != 2 else 3; out.append(('json-scalar', a))
@@ -562,6 +569,11 @@ def outputs_edits(outs):
             if 'text/html' in data:
                 no = cp(o); no['data']['text/html'] = data['text/html'].replace('<td>1</td>', '<td>2</td>')
                 out.append(('data%d:html' % q, O, outs[:q] + [no] + outs[q + 1:]))
+            for mk in sorted(data):
+                if mk != mk.lower() and isinstance(data[mk], str):
+                    # payload of an entry whose mime key is not all lower case: a small change (stays similar) under the key as it is stored
+                    no = cp(o); no['data'][mk] = data[mk].replace('bold', 'strong') if 'bold' in data[mk] else data[mk] + ' '
+                    out.append(('data%d:mixedcase' % q, O, outs[:q] + [no] + outs[q + 1:]))
             if 'application/json' not in data:
                 no = cp(o); no['data']['application/json'] = {'new': 1}
                 out.append(('data%d:json-add' % q, O, outs[:q] + [no] + outs[q + 1:]))
